@@ -598,4 +598,83 @@ end examples
 example : Rfc.encClass 2 = .hashReqAuth ∧ Rfc.encClass 4 = .hashZero ∧ Rfc.encClass 13 = .refused := by
   exact ⟨rfl, rfl, rfl⟩
 
+/-! ### 15. Tampering with REQUESTS (second audit: the tamper theorems covered the response predicate only)
+
+For Accounting-, Disconnect- and CoA-Request the request predicate is the response predicate against sixteen zero
+octets (`hashed_request_is_a_reply_to_zeros`), so every tamper theorem of §13 transfers; the Code octet is treated
+separately because it selects the rule. -/
+
+/-- for the hashed request codes the request predicate IS the response predicate against a request whose
+    authenticator is sixteen zero octets -/
+theorem hashed_request_is_a_reply_to_zeros (H : Hash) (q s : Bytes) (hc : Rfc.reqClass (q.getD 0 0).toNat = .hashZero) :
+    isAuthenticRequest H q s = isAuthenticResponse H q (zeros 20) s := by
+  unfold isAuthenticRequest isAuthenticResponse
+  rw [requestClass_rfc, hc]
+  have hz : ((zeros 20).drop 4).take 16 = zeros 16 := by decide
+  have hl : (zeros 20).length = 20 := by decide
+  simp [hz, hl]
+
+theorem getD0_set (q : Bytes) (i : Nat) (b : UInt8) (hi : 1 ≤ i) : (q.set i b).getD 0 0 = q.getD 0 0 := by
+  cases q with
+  | nil => simp
+  | cons x xs =>
+    cases i with
+    | zero => omega
+    | succ j => simp
+
+/-- a hashed request (Accounting-, Disconnect-, CoA-Request) with one octet of its authenticator field altered is
+    rejected outright -/
+theorem tamper_request_authenticator_octet (H : Hash) (q s : Bytes) (i : Nat) (b : UInt8)
+    (hc : Rfc.reqClass (q.getD 0 0).toNat = .hashZero)
+    (hok : isAuthenticRequest H q s = true) (hi : i < q.length) (h4 : 4 ≤ i) (h20 : i < 20) (hb : b ≠ q[i]) :
+    isAuthenticRequest H (q.set i b) s = false := by
+  rw [hashed_request_is_a_reply_to_zeros H q s hc] at hok
+  rw [hashed_request_is_a_reply_to_zeros H _ s (by rw [getD0_set q i b (by omega)]; exact hc)]
+  exact tamper_authenticator_octet H q (zeros 20) s i b hok hi h4 h20 hb
+
+/-- … with any other octet but the Code altered (Identifier, Length, an attribute or padding octet): the hash input
+    differs, rejected unless `H` collides on the two inputs -/
+theorem tamper_request_covered_octet (H : Hash) (q s : Bytes) (i : Nat) (b : UInt8)
+    (hc : Rfc.reqClass (q.getD 0 0).toNat = .hashZero)
+    (hok : isAuthenticRequest H q s = true) (hi : i < q.length) (hcov : (1 ≤ i ∧ i < 4) ∨ 20 ≤ i) (hb : b ≠ q[i]) :
+    authInput (q.set i b) (zeros 16) s ≠ authInput q (zeros 16) s ∧
+    (H (authInput (q.set i b) (zeros 16) s) ≠ H (authInput q (zeros 16) s) →
+      isAuthenticRequest H (q.set i b) s = false) := by
+  rw [hashed_request_is_a_reply_to_zeros H q s hc] at hok
+  rw [hashed_request_is_a_reply_to_zeros H _ s (by rw [getD0_set q i b (by omega)]; exact hc)]
+  have hz : ((zeros 20).drop 4).take 16 = zeros 16 := by decide
+  have := tamper_covered_octet H q (zeros 20) s i b hok hi (by omega) hb
+  rwa [hz] at this
+
+/-- … checked under any other secret -/
+theorem tamper_request_secret (H : Hash) (q s s' : Bytes)
+    (hc : Rfc.reqClass (q.getD 0 0).toNat = .hashZero)
+    (hok : isAuthenticRequest H q s = true) (hne : s' ≠ s) :
+    authInput q (zeros 16) s' ≠ authInput q (zeros 16) s ∧
+    (H (authInput q (zeros 16) s') ≠ H (authInput q (zeros 16) s) → isAuthenticRequest H q s' = false) ∧
+    (s' = [] → isAuthenticRequest H q s' = false) := by
+  rw [hashed_request_is_a_reply_to_zeros H q s hc] at hok
+  rw [hashed_request_is_a_reply_to_zeros H q s' hc]
+  have hz : ((zeros 20).drop 4).take 16 = zeros 16 := by decide
+  have := tamper_secret H q (zeros 20) s s' hok hne
+  rwa [hz] at this
+
+/-- the Code octet altered into a code of another class: Access-Request / Status-Server are accepted whatever the
+    authenticator (nothing protects them at this layer - Message-Authenticator is not implemented), every code
+    that is not a request is rejected outright -/
+theorem tamper_request_code (H : Hash) (q s : Bytes) (hq : 20 ≤ q.length) (hs : s ≠ []) :
+    (Rfc.reqClass (q.getD 0 0).toNat = .always → isAuthenticRequest H q s = true) ∧
+    (Rfc.reqClass (q.getD 0 0).toNat = .never → isAuthenticRequest H q s = false) := by
+  constructor
+  · intro h
+    rw [isAuthenticRequest_iff]
+    exact ⟨hq, hs, by rw [h]; trivial⟩
+  · intro h
+    cases hr : isAuthenticRequest H q s with
+    | false => rfl
+    | true =>
+      have := (isAuthenticRequest_iff H q s).1 hr
+      rw [h] at this
+      exact absurd this.2.2 (by simp)
+
 end RV.C03
